@@ -10,7 +10,9 @@ U == << El("i1a", "int", 1, "n1", NoKey), El("i1b", "int", 1, "n1", NoKey), El("
         \* arrays with a map member (no order on maps): aq2 extends aq -- different data, never to be merged by `unique`
         ArrEl("aq", "aq", <<Sc("map", 1)>>), ArrEl("aq2", "aq2", <<Sc("map", 1), Sc("int", 2)>>),
         \* a negative integer (the harness stores it as i64, next to 1 stored as u64) and a map keyed by it
-        El("in1", "int", -1, "nm1", NoKey), El("mk", "map", 0, "mk", K("int", -1)) >>
+        El("in1", "int", -1, "nm1", NoKey), El("mk", "map", 0, "mk", K("int", -1)),
+        \* a negative fractional number just below -1 (rank -2): floats and integers are ordered by value
+        El("fm15", "int", -2, "nm1h", NoKey) >>
 GK == << <<"int", 1>>, <<"int", 2>>, <<"str", 1>> >>          \* the group keys that can occur in U
 Obs == IF IOEnv.OBS = "" THEN <<>> ELSE ndJsonDeserialize(IOEnv.OBS)
 VARIABLES mode, xs, o, done
